@@ -11,10 +11,8 @@
 #include <string.h>
 #include <strings.h>
 
-#define VF_RET_IN(ret, s, n)						\
-	((ret) == NULL || (__CPROVER_same_object((ret), (s)) &&		\
-	    (const char *)(ret) >= (const char *)(s) &&			\
-	    (size_t)((const char *)(ret) - (const char *)(s)) < (n)))
+#include "vf/vf.h"
+#define VF_RET_IN(ret, s, n)	VF_IN_OR_NULL((ret), (s), 0, (n))
 
 void *memchr(const void *s, int c, size_t n)
 __CPROVER_requires(n == 0 || __CPROVER_r_ok(s, n))
@@ -37,9 +35,7 @@ __CPROVER_requires(hn == 0 || __CPROVER_r_ok(h, hn))
 __CPROVER_requires(nn == 0 || __CPROVER_r_ok(nd, nn))
 __CPROVER_assigns()
 __CPROVER_ensures(__CPROVER_return_value == NULL || (nn <= hn &&
-    __CPROVER_same_object(__CPROVER_return_value, h) &&
-    (const char *)__CPROVER_return_value >= (const char *)h &&
-    (size_t)((const char *)__CPROVER_return_value - (const char *)h) <= hn - nn))
+    VF_IN_OR_NULL(__CPROVER_return_value, h, 0, hn - nn + 1)))
 ;
 
 int memcmp(const void *a, const void *b, size_t n)
